@@ -24,6 +24,10 @@ def sig_of(m: dict) -> dict:
     sig['clause'] = m['clause']
     sig['expected'] = m['exp']
     sig['record'] = {k: v for k, v in rec.items() if k not in ('sig',)}
+    # FixupMap: C08 speaks about the replaceNN indexes of one entity's fixups (distinct, positive,
+    # one entry per variable); spellings, values and export order of the mapping are growth.
+    if m['clause'].startswith('fixmap.') and m['clause'] not in ('fixmap.index', 'fixmap.keys'):
+        sig['drift'] = 'FixupMap'
     return sig
 
 
